@@ -307,7 +307,7 @@ def h_copyback(stage):
             old.append(b)
         st = integer('stage') if stage == 'sym' else stage
         iter_name = ast.unparse(loops[0].iter).split('zip(new_src,')[1].strip(' )')
-        exec(code, dict(core.BUILTINS, flags=flags), {'new_src': new, iter_name: old, 'stage': st})
+        exec(code, slicer.module_env(F, dict(core.BUILTINS, flags=flags)), {'new_src': new, iter_name: old, 'stage': st})
         stv = core.lift(st)
         cl = []
         for k in range(3):
@@ -368,8 +368,8 @@ def h_presence():
 
         class Self:
             log = loader.NullLog()
-        env = dict(core.BUILTINS)
-        env.update({'np': loader.NPProxy(), 'params': params, arrname: Box(), 'self': Self()})
+        env = slicer.module_env(F, dict(core.BUILTINS, np=loader.NPProxy()))
+        env.update({'params': params, arrname: Box(), 'self': Self()})
         exec(code, env)
         ok = len(Box.taken) == 1 and isinstance(Box.taken[0], tuple) and len(Box.taken[0]) == 2
         c.oblige('presence:one 2-D box per component', z3.BoolVal(ok))
